@@ -329,7 +329,7 @@ def discharge(vcs, timeout_ms=10000, backends=("z3-api", "cvc5", "z3-api/arith2"
             d = getattr(v, "depth", None)
             d = depth if d is None else d
             v.smt2 = build_query(v, d)
-            tasks.append((v.smt2, tmo, want_model, list(backends)))
+            tasks.append((v.smt2, int(tmo * getattr(v, "budget", 1)), want_model, list(backends)))
         results = run_tasks(tasks)
         for v, r in zip(todo, results):
             v.status, v.backend, v.model = r["status"], r["backend"], r["model"]
